@@ -77,13 +77,9 @@ def validate_all(ctx, scens):
             detail["fs_difference"] = getattr(sc, "fsdiff", None)
         ctx.violation("%s:%s:%s" % (name, kind, sample), detail)
 
-        def same_cause(item):
-            n2, sc2, tr2 = item
-            if n2 != name:
-                return False
-            return (not sample) or sample in sc2.bnames or sample in sc2.anames
-        remaining = [it for it in remaining[s + 1:] if not same_cause(it)] + \
-                    [it for it in remaining[:s] if False]
+        # one report per element and validation round: the other scenarios of this element are set aside
+        # (the position-only layout comparison above has already reported per sample), the rest is validated again
+        remaining = [it for it in remaining[s + 1:] if it[0] != name]
     if remaining and rounds >= 12:
         ctx.extra["trace_validation_note"] = "%d scenarios not re-validated after 12 rejections" % len(remaining)
     return None
